@@ -70,27 +70,27 @@ type req40 struct {
 }
 
 type call40 struct {
-	id        int
-	req       *req40
-	done      chan struct{}
-	res       *nfsv4.Compound4res
-	err       error
-	bytes     []byte
-	returned  bool
-	observed  bool
-	effBefore int
-	label     int
-	mOut      string
-	mOwner    string
-	finished  bool
-	retransOf *call40
-	fresh     bool
-	accepted  bool // the transaction was started for this call (or it waits for / is the running one)
-	consumed  bool // ... and advanced the owner's seqid
-	expectBad bool
+	id          int
+	req         *req40
+	done        chan struct{}
+	res         *nfsv4.Compound4res
+	err         error
+	bytes       []byte
+	returned    bool
+	observed    bool
+	effBefore   int
+	label       int
+	mOut        string
+	mOwner      string
+	finished    bool
+	retransOf   *call40
+	fresh       bool
+	accepted    bool // the transaction was started for this call (or it waits for / is the running one)
+	consumed    bool // ... and advanced the owner's seqid
+	expectBad   bool
 	lockInOrder bool // client view: successor of the lock-owner's last accepted lock seqid
-	inOrder   bool // client view: successor of the confirmed owner's last accepted seqid, nothing in flight, no nested lock-owner involved
-	opStatus  uint32
+	inOrder     bool // client view: successor of the confirmed owner's last accepted seqid, nothing in flight, no nested lock-owner involved
+	opStatus    uint32
 }
 
 type run40 struct {
@@ -100,23 +100,23 @@ type run40 struct {
 	drv *hx.Driver
 	out *outcome
 
-	clients   []uint64
-	reqs      map[int]*req40
-	calls     []*call40
-	owners    map[string]int
-	others    map[[12]byte]int
-	confirmed map[int]bool
-	lastCons  map[int]*req40 // owner -> last request that advanced its seqid
-	touched   map[int]int
-	consumed  map[[2]int]*req40 // (owner, seq) -> request that advanced the owner under that seqid
-	lockCons  map[[2]int]*req40 // (lock other, seq)
-	dirBusy   map[int]int     // directory -> owner of the OPEN parked inside its lock
-	lastLock  map[int]*req40  // lock-owner -> last request that advanced its lock seqid
-	inflight  map[int]*req40  // owner -> request whose transaction is running (OPEN parked)
-	lockOtherOwner map[int]int // lock state ID other (canonical) -> lock-owner
-	otherFile map[int]string  // open state ID other (canonical) -> file handle GETFH returned when it was opened
-	dirty     map[int]bool    // owner -> a request since the last advance failed without advancing (it may have dropped the cache)
-	label     int
+	clients        []uint64
+	reqs           map[int]*req40
+	calls          []*call40
+	owners         map[string]int
+	others         map[[12]byte]int
+	confirmed      map[int]bool
+	lastCons       map[int]*req40 // owner -> last request that advanced its seqid
+	touched        map[int]int
+	consumed       map[[2]int]*req40 // (owner, seq) -> request that advanced the owner under that seqid
+	lockCons       map[[2]int]*req40 // (lock other, seq)
+	dirBusy        map[int]int       // directory -> owner of the OPEN parked inside its lock
+	lastLock       map[int]*req40    // lock-owner -> last request that advanced its lock seqid
+	inflight       map[int]*req40    // owner -> request whose transaction is running (OPEN parked)
+	lockOtherOwner map[int]int       // lock state ID other (canonical) -> lock-owner
+	otherFile      map[int]string    // open state ID other (canonical) -> file handle GETFH returned when it was opened
+	dirty          map[int]bool      // owner -> a request since the last advance failed without advancing (it may have dropped the cache)
+	label          int
 }
 
 func newRun40(t *testing.T, w *nfsx.World, drv *hx.Driver, out *outcome) *run40 {
